@@ -95,4 +95,126 @@ Proof.
     + rewrite (H2 e eq_refl). reflexivity.
 Qed.
 
+(* ------------------------------------------------------------------ deleting a range inside one parent node
+   [remaining]: the parent's children before the range, the part of a text node in front of `from` (node_before), the part
+   of a text node behind `to` (node_after), the children after the range - appended one by one, equally-marked adjacent text
+   merged.  Node.replace with the empty slice returns a document exactly when that child sequence is valid content for the
+   parent's type; otherwise it raises ReplaceError. *)
+Definition opt_add (o : option node) (target : list node) : list node :=
+  match o with Some x => add_node x target | None => target end.
+
+Definition remaining (parent : node) (rf rt : rpos) (i j : nat) (nb na : option node) : list node :=
+  let c1 := add_all (firstn i (node_content parent)) [] in
+  let c1' := if negb (rp_text_offset rf =? 0) then opt_add nb c1 else c1 in
+  let '(start, c2) := if negb (rp_text_offset rt =? 0) then (S j, opt_add na c1') else (j, c1') in
+  add_all (skipn start (node_content parent)) c2.
+
+Lemma same_ancestors rf rt doc : WP s rf -> WP s rt -> rp_depth rf = rp_depth rt ->
+  rp_node rf 0 = Ok doc -> rp_node rt 0 = Ok doc ->
+  (forall d, d < rp_depth rf -> rp_index rf d = rp_index rt d) ->
+  forall d, d <= rp_depth rf -> rp_node rt d = rp_node rf d.
+Proof.
+  intros Hwf Hwt Hdep H0f H0t Hidx. induction d as [|d IH]; intros Hd; [rewrite H0f, H0t; reflexivity|].
+  destruct (WP_at s rf d Hwf ltac:(lia)) as (n & i & o & _ & _ & _ & En & Ei & _ & Hc).
+  destruct (WP_at s rt d Hwt ltac:(lia)) as (n' & i' & o' & _ & _ & _ & En' & Ei' & _ & Hc').
+  specialize (IH ltac:(lia)). rewrite En, En' in IH. inversion IH; subst n'.
+  pose proof (Hidx d ltac:(lia)) as E. rewrite Ei, Ei' in E. inversion E; subst i'.
+  destruct (Hc ltac:(lia)) as (c & Hca & Hcn). destruct (Hc' ltac:(lia)) as (c' & Hca' & Hcn').
+  rewrite Hca in Hca'. inversion Hca'; subst c'. rewrite Hcn, Hcn'. reflexivity.
+Qed.
+
+Theorem flat_delete doc from to rf rt parent i j nb na :
+  is_elem doc -> resolve s doc from = Ok rf -> resolve s doc to = Ok rt -> from <= to ->
+  rp_depth rf = rp_depth rt -> (forall d, d < rp_depth rf -> rp_index rf d = rp_index rt d) ->
+  rp_parent rf = Ok parent ->
+  rp_index rf (rp_depth rf) = Ok i -> rp_index rt (rp_depth rf) = Ok j ->
+  rp_node_before s rf = Ok nb -> rp_node_after s rt = Ok na ->
+  ((exists d', node_replace s doc from to (SL [] 0 0) = Ok d') <->
+   valid_content s (node_ty s parent) (remaining parent rf rt i j nb na) = true) /\
+  (forall e, node_replace s doc from to (SL [] 0 0) = Err e -> e = ErrReplace).
+Proof.
+  intros He Hrf Hrt Hft Hdep Hidx Hpar Hi Hj Hnb Hna.
+  destruct (resolve_WP s _ _ _ He Hrf) as (Hwf & Hpf). destruct (resolve_WP s _ _ _ He Hrt) as (Hwt & Hpt).
+  assert (H0f : rp_node rf 0 = Ok doc).
+  { destruct (resolve_spec s _ _ _ Hrf) as (_ & _ & _ & (i0 & o0 & rest & Hh) & _). unfold rp_node, path_at. rewrite Hh. reflexivity. }
+  assert (H0t : rp_node rt 0 = Ok doc).
+  { destruct (resolve_spec s _ _ _ Hrt) as (_ & _ & _ & (i0 & o0 & rest & Hh) & _). unfold rp_node, path_at. rewrite Hh. reflexivity. }
+  pose proof (same_ancestors rf rt doc Hwf Hwt Hdep H0f H0t Hidx) as Hsame.
+  set (D := rp_depth rf) in *.
+  assert (Hparf : rp_node rf D = Ok parent) by exact Hpar.
+  assert (Hpart : rp_node rt D = Ok parent) by (rewrite (Hsame D (Nat.le_refl _)); exact Hparf).
+  destruct (WP_at s rf D Hwf (Nat.le_refl _)) as (n0 & i0 & o0 & _ & _ & Hile & En0 & Ei0 & _).
+  rewrite Hparf in En0. inversion En0; subst n0. rewrite Hi in Ei0. inversion Ei0; subst i0.
+  destruct (WP_at s rt D Hwt ltac:(unfold D; lia)) as (n1 & j1 & o1 & _ & _ & Hjle & En1 & Ej1 & _).
+  rewrite Hpart in En1. inversion En1; subst n1. rewrite Hj in Ej1. inversion Ej1; subst j1.
+  (* the bottom level: replace_two_way at depth D *)
+  assert (Htw : forall fuel, replace_two_way s (S fuel) rf rt D = Ok (remaining parent rf rt i j nb na)).
+  { intros fuel. cbn [replace_two_way]. unfold add_range at 1. rewrite Hparf, Hi. cbn [bind].
+    assert (E1 : (length (node_content parent) <? i) = false) by (apply Nat.ltb_ge; exact Hile). rewrite E1. cbn [bind].
+    rewrite Nat.sub_0_r. cbn [skipn]. fold D. rewrite Nat.eqb_refl. cbn [andb].
+    assert (Hc1 : (if negb (rp_text_offset rf =? 0)
+                   then do nb0 <- rp_node_before s rf; match nb0 with Some x => Ok (add_node x (add_all (firstn i (node_content parent)) [])) | None => Err ErrInternal end
+                   else Ok (add_all (firstn i (node_content parent)) []))
+                  = Ok (if negb (rp_text_offset rf =? 0) then opt_add nb (add_all (firstn i (node_content parent)) []) else add_all (firstn i (node_content parent)) [])).
+    { destruct (negb (rp_text_offset rf =? 0)) eqn:Et; [|reflexivity]. rewrite Hnb. cbn [bind].
+      apply negb_true_iff in Et. apply Nat.eqb_neq in Et.
+      destruct (rp_node_before_spec s rf Hwf) as (_ & Hsome). specialize (Hsome Et nb Hnb).
+      destruct nb as [x|]; [reflexivity|congruence]. }
+    rewrite Hc1. cbn [bind]. rewrite Nat.ltb_irrefl. cbn [bind].
+    unfold add_range. rewrite Hpart, Hj. cbn [bind]. rewrite <- Hdep. fold D. rewrite Nat.ltb_irrefl.
+    unfold remaining.
+    destruct (negb (rp_text_offset rt =? 0)) eqn:Et.
+    - rewrite Hna. cbn [bind]. apply negb_true_iff in Et. apply Nat.eqb_neq in Et.
+      destruct (rp_node_after_spec s rt Hwt) as (_ & Hsome). specialize (Hsome Et na Hna).
+      destruct na as [x|]; [|congruence]. cbn [bind opt_add].
+      rewrite Nat.ltb_irrefl. cbn [bind]. rewrite firstn_all2 by (rewrite skipn_length; lia). reflexivity.
+    - cbn [bind]. rewrite Nat.ltb_irrefl. cbn [bind]. rewrite firstn_all2 by (rewrite skipn_length; lia). reflexivity. }
+  (* going down to it *)
+  assert (G : forall k depth fuel, depth + k = D -> k < fuel ->
+            ((exists d', replace_outer s fuel rf rt (SL [] 0 0) depth = Ok d') <->
+             valid_content s (node_ty s parent) (remaining parent rf rt i j nb na) = true) /\
+            (forall e, replace_outer s fuel rf rt (SL [] 0 0) depth = Err e -> e = ErrReplace)).
+  { induction k as [|k IH]; intros depth fuel Hk Hfuel; (destruct fuel as [|fuel]; [lia|]); cbn [replace_outer sl_open_start sl_content frag_size].
+    - assert (Hd : depth = D) by lia. subst depth. rewrite Hi, Hparf, Hj. cbn [bind]. rewrite Nat.sub_0_r. fold D. rewrite Nat.ltb_irrefl, andb_false_r.
+      cbn [Nat.eqb]. fold D. rewrite (Htw D). cbn [bind]. unfold close.
+      destruct (valid_content s (node_ty s parent) (remaining parent rf rt i j nb na)).
+      + split; [split; [reflexivity|eexists; reflexivity]|discriminate].
+      + split; [split; [intros (d' & H); discriminate|discriminate]|]. intros e H. inversion H. reflexivity.
+    - assert (Hlt : depth < D) by lia.
+      destruct (WP_at s rf depth Hwf ltac:(unfold D in *; lia)) as (n & i' & o' & _ & _ & _ & En & Ei & _).
+      pose proof (Hidx depth Hlt) as Hii. rewrite Ei in Hii. rewrite Ei, En, <- Hii. cbn [bind].
+      rewrite Nat.eqb_refl, Nat.sub_0_r. fold D. apply Nat.ltb_lt in Hlt. rewrite Hlt. cbn [andb]. apply Nat.ltb_lt in Hlt.
+      destruct (IH (S depth) fuel ltac:(lia) ltac:(lia)) as (IH1 & IH2).
+      destruct (replace_outer s fuel rf rt (SL [] 0 0) (S depth)) as [inner|e] eqn:Einner; cbn [bind].
+      + split; [|discriminate]. split; [intros _; apply IH1; eexists; reflexivity|intros _; eexists; reflexivity].
+      + split.
+        * split; [intros (d' & H); discriminate|]. intros Hv. destruct (proj2 IH1 Hv) as (d' & H). discriminate.
+        * intros e' H. inversion H; subst e'. apply IH2. reflexivity. }
+  unfold node_replace. rewrite Hrf, Hrt. cbn [bind]. unfold replace_rp. cbn [sl_open_start sl_open_end sl_content frag_size].
+  fold D. assert (E1 : (D <? 0) = false) by (apply Nat.ltb_ge; lia). rewrite E1.
+  rewrite <- Hdep, Z.eqb_refl. cbn [negb]. rewrite Hpf, Hpt.
+  assert (E2 : (to <? from) = false) by (apply Nat.ltb_ge; lia). rewrite E2. cbn [Nat.eqb Nat.ltb Nat.leb orb andb].
+  exact (G D 0 (S D) eq_refl ltac:(lia)).
+Qed.
+
+Theorem flat_delete_step doc from to rf rt parent i j nb na :
+  is_elem doc -> resolve s doc from = Ok rf -> resolve s doc to = Ok rt -> from <= to ->
+  rp_depth rf = rp_depth rt -> (forall d, d < rp_depth rf -> rp_index rf d = rp_index rt d) ->
+  rp_parent rf = Ok parent ->
+  rp_index rf (rp_depth rf) = Ok i -> rp_index rt (rp_depth rf) = Ok j ->
+  rp_node_before s rf = Ok nb -> rp_node_after s rt = Ok na ->
+  if valid_content s (node_ty s parent) (remaining parent rf rt i j nb na)
+  then exists d', apply s (SReplace from to (SL [] 0 0) false) doc = ROk d'
+  else apply s (SReplace from to (SL [] 0 0) false) doc = RFail.
+Proof.
+  intros He Hrf Hrt Hft Hdep Hidx Hpar Hi Hj Hnb Hna.
+  destruct (flat_delete doc from to rf rt parent i j nb na He Hrf Hrt Hft Hdep Hidx Hpar Hi Hj Hnb Hna) as (H1 & H2).
+  cbn [apply lift]. unfold from_replace.
+  destruct (valid_content s (node_ty s parent) (remaining parent rf rt i j nb na)).
+  - destruct (proj2 H1 eq_refl) as (d' & E). rewrite E. exists d'. reflexivity.
+  - destruct (node_replace s doc from to (SL [] 0 0)) as [d'|e] eqn:E.
+    + assert (X : false = true) by (apply (proj1 H1); exists d'; reflexivity). discriminate.
+    + rewrite (H2 e eq_refl). reflexivity.
+Qed.
+
 End WithSchema.
